@@ -432,6 +432,21 @@ def m_knots(kind):
             if v[0] == v[-1]:
                 return None
             w = w[::-1]
+        elif kind == "hugespan":
+            # finite, sorted, but the difference of the end knots (and of many inner pairs) overflows to +inf
+            w = [d2w(-1.7e308 + (3.4e308 / max(1, n - 1)) * i if i < n - 1 else 1.7e308) for i in range(n)]
+        elif kind == "hugeends":
+            v = sorted(w2d(x) for x in w)
+            if any(x != x or x in (float("inf"), float("-inf")) for x in v):
+                return None
+            m = max(1, n // 3)
+            v = [(-1.6e308 - 1e305 * (m - i)) if i < m else (1.6e308 + 1e305 * (i - (n - m))) if i >= n - m else x * 1e-3 for i, x in enumerate(v)]
+            w = [d2w(x) for x in sorted(v)]
+        elif kind == "tinyspan":
+            v = sorted(w2d(x) for x in w)
+            if any(x != x or x in (float("inf"), float("-inf")) for x in v):
+                return None
+            w = [d2w(x * 2.0 ** -1065) for x in v]
         elif kind == "allequal":
             w = [w[0]] * n
         elif kind == "negzero":
@@ -617,7 +632,7 @@ MUTATIONS = [
     (1, m_extname("renamed")), (1, m_extname("lowercase")), (1, m_extname("hduname")), (2, m_extname("duplicated")), (1, m_extname("swapped")), (1, m_extname("missing")), (1, m_extname("primary-shadow")),
     (2, m_ext("dropped-knots")), (1, m_ext("dropped-extents")), (1, m_ext("dropped-all")), (2, m_ext("reordered")), (1, m_ext("extents-resized")), (1, m_ext("extents-nan")),
     (1, m_ext("xtension-table")), (1, m_ext("extra-foreign")),
-    (3, m_knots("nan")), (2, m_knots("inf")), (2, m_knots("neginf")), (4, m_knots("unsorted")), (1, m_knots("reversed")), (1, m_knots("allequal")), (1, m_knots("negzero")),
+    (3, m_knots("nan")), (2, m_knots("inf")), (2, m_knots("neginf")), (4, m_knots("unsorted")), (1, m_knots("reversed")), (1, m_knots("allequal")), (1, m_knots("negzero")), (2, m_knots("hugespan")), (2, m_knots("hugeends")), (1, m_knots("tinyspan")),
     (3, m_byteflip("header")), (3, m_byteflip("data")), (2, m_byteflip("any")),
     (3, m_trunc("block")), (3, m_trunc("card")), (2, m_trunc("data")), (2, m_trunc("any")), (1, m_append),
     (1, foreign("empty-primary")), (1, foreign("bintable")), (1, foreign("asciitable")), (1, foreign("plain-image")), (1, foreign("image-with-orders")),
